@@ -90,14 +90,19 @@ Definition read_port (e : env) (t : ptext) : option (list wire) :=
 
 (* ---------- assign statements ---------- *)
 (* reader: connect_wires_for_assign. Pin k (position k of the ports o / i of SDN_VERILOG_ASSIGNMENT_w) takes
-   out_wires[k] / in_wires[k], both lists being MOST significant first. Result: per pin (o wire, i wire). *)
+   out_wires[-1-k] / in_wires[-1-k], both lists being MOST significant first: bit k from the low end of each side.
+   Result: per pin (o wire, i wire). *)
 Definition read_assign (e : env) (lhs rhs : atom) : option (list (wire * wire)) :=
   match reader_atom e lhs, reader_atom e rhs with
   | Some o, Some i =>
       let w := Nat.min (length o) (length i) in
-      Some (combine (firstn w o) (firstn w i))
+      Some (combine (firstn w (rev o)) (firstn w (rev i)))
   | _, _ => None
   end.
+
+(* the text "c" / "c[i]" / "c[h:l]" that _write_bundle_with_indicies emitted, as parse_variable_instantiation reads it *)
+Definition brk_atom (c : nat) (b : brk) : atom :=
+  match b with BNone => AId c | BIdx i => ABit c i | BRange h l => APart c h l end.
 
 (* writer: _write_assignment over the pins in port order; None = AssertionError *)
 Definition write_assign (e : env) (pins : list (wire * wire)) : option ((nat * brk) * (nat * brk)) :=
